@@ -27,7 +27,8 @@ def sjis_chars():
                 ch = bytes((hi, lo)).decode('shift_jis')
             except UnicodeDecodeError:
                 continue
-            if len(ch) == 1 and ch.encode('shift_jis') == bytes((hi, lo)):
+            # characters which ISO 8859-1 can represent are encoded in ISO 8859-1 by the text policy
+            if len(ch) == 1 and ord(ch) > 255 and ch.encode('shift_jis') == bytes((hi, lo)):
                 out.append(ch)
     return ''.join(out)
 
@@ -201,7 +202,7 @@ def constructive_single(draw, fns=('make', 'make_qr', 'make_micro'), modes=MODES
     kw = {}
     as_bytes = draw(st.integers(0, 4)) == 0
     codec = {'kanji': 'shift_jis', 'hanzi': 'gb2312'}.get(mode, 'iso-8859-1')
-    if mode == 'numeric' and n and draw(st.integers(0, 5)) == 0 and not text.startswith('0'):
+    if mode == 'numeric' and 0 < n <= 4000 and draw(st.integers(0, 5)) == 0 and not text.startswith('0'):
         content = int(text)
     elif as_bytes:
         content = text.encode(codec)
